@@ -71,7 +71,21 @@ func (rm *RegistrationManager) HandleRegUpdates(ctx context.Context, regChan <-c
 	// distribute messages to workers. When workers are unavailable messages are
 	// added into channel buffer until full, then dropped.
 distrLoop:
-	for msg := range regChan {
+	for {
+		// Wait for the next message or the stop request: ranging over regChan alone kept the
+		// distributor (and with it the caller's shutdown) blocked until another message arrived.
+		var msg interface{}
+		var ok bool
+		select {
+		case <-ctx.Done():
+			logger.Infof("closing all ingest threads")
+			break distrLoop
+		case msg, ok = <-regChan:
+			if !ok {
+				break distrLoop
+			}
+		}
+
 		rm.addIngestMessage()
 		select {
 		case <-ctx.Done():
